@@ -36,7 +36,8 @@ def attr_value(key, r):
         return str(r.randint(10000, 99999))
     if key == 'initials':
         return r.choice(['AB', 'X.Y.', 'J'])
-    base = r.choice(['ACME', 'Example Corp', 'Zürich', 'Köln-Süd', 'Org, Inc.', 'a+b=c', '東京', 'Ünit "Q"', "O'Neil", 'x' * 40])
+    base = r.choice(['ACME', 'Example Corp', 'Zürich', 'Köln-Süd', 'Org, Inc.', 'a+b=c', '東京', 'Ünit "Q"', "O'Neil", 'x' * 40,
+                     'ACME Corp ', ' Lead', '  two  spaces  ', 'tab\there', 'UPPER lower'])
     return base
 
 
@@ -55,7 +56,7 @@ def gen_cert(r, idx, rich):
             ent = {'ip': v, 'challenge': r.choice(['http-01', 'tls-alpn-01'])}
             norm = ('ip', str(ipaddress.ip_address(v)))
         else:
-            v = T.gen_domain(r, r.choice(['ascii', 'mixed', 'idn', 'combo']))
+            v = T.gen_domain(r, r.choice(['ascii', 'mixed', 'idn', 'combo', 'alabel', 'combo']))
             v = 'c%d-' % idx + v if r.random() < 0.5 else v + '.c%d.example' % idx
             if r.random() < 0.2:
                 v = '*.' + v
